@@ -268,6 +268,26 @@ type absJob struct {
 	tag  int
 }
 
+// satAddGo is the harness's own expectation of what an interval trigger answers: prev + d, or the largest
+// representable time when that sum is beyond it (d > 0). Written without relying on wrap-around.
+func satAddGo(prev, d int64) int64 {
+	if d > 0 && prev > math.MaxInt64-d {
+		return math.MaxInt64
+	}
+	return prev + d
+}
+
+// the intervals / delays of the real SimpleTrigger and RunOnceTrigger under test: small ones around the
+// classification boundaries, and two beyond every practical horizon: MaxInt64 ("never": already the first
+// addition to a clock reading overflows) and 3/4 of it (the first addition fits, the second one overflows)
+var (
+	schedBigIntervals = []int64{math.MaxInt64, math.MaxInt64 / 4 * 3}
+	// prev arguments for the direct trigger differential (all non-negative: the model does not cover the wrap
+	// below MinInt64)
+	schedFirePrevs = []int64{0, 1, 1 << 62, math.MaxInt64 / 4, math.MaxInt64/4 + 2, math.MaxInt64/4 + 3, math.MaxInt64 - int64(time.Hour), math.MaxInt64 - int64(time.Hour) + 1,
+		math.MaxInt64 - int64(30*time.Minute), math.MaxInt64 - 1, math.MaxInt64}
+)
+
 func schedRun(args []string) int {
 	fs := flag.NewFlagSet("sched", flag.ExitOnError)
 	seed := fs.Int64("seed", 1, "")
@@ -308,6 +328,28 @@ func schedRun(args []string) int {
 				viol = append(viol, fmt.Sprintf("%s | after %v", msg, ops[max(0, len(ops)-6):]))
 			}
 		}
+		// interval of the real SimpleTrigger / RunOnceTrigger behind a tag; every answer such a trigger gives is judged
+		// here against the property (no fire time is invented: the next one is prev + interval, and if that is beyond
+		// the largest representable time, that largest time — never a time before prev for a positive interval)
+		ivl := map[int]int64{}
+		checkCalls := func(calls []trigCall) {
+			for _, c := range calls {
+				d, ok := ivl[c.tag]
+				if !ok || c.result == nil {
+					continue
+				}
+				want := satAddGo(c.prev, d)
+				if d > 0 && c.prev > math.MaxInt64-d { // the exact sum is not representable
+					dist["class"]["interval-overflow"]++
+				}
+				switch {
+				case d > 0 && *c.result < c.prev:
+					flagV(fmt.Sprintf("C04 the trigger answered a fire time before prev for a positive interval: NextFireTime(%d) = %d, interval %d (overflow: the fire time was invented, want %d)", c.prev, *c.result, d, want))
+				case *c.result != want:
+					flagV(fmt.Sprintf("C04 the interval trigger answered NextFireTime(%d) = %d, interval %d, want %d", c.prev, *c.result, d, want))
+				}
+			}
+		}
 		dump := func() string {
 			jobs, _ := h.inner.ScheduledJobs(nil)
 			var p []string
@@ -327,7 +369,7 @@ func schedRun(args []string) int {
 			case 2:
 				g, n = []string{"g1", "G1"}[r.Intn(2)], []string{"a", "A"}[r.Intn(2)]
 			}
-			op := []string{"schedule", "schedule", "schedule", "step", "step", "step", "pause", "pause", "resume", "resume", "delete", "get", "keys", "clear", "dump"}[r.Intn(15)]
+			op := []string{"schedule", "schedule", "schedule", "step", "step", "step", "pause", "pause", "resume", "resume", "delete", "get", "keys", "clear", "dump", "fire"}[r.Intn(16)]
 			if op != "schedule" && len(abs) > 0 && r.Intn(10) < 7 { // mostly address jobs that exist
 				var ks []string
 				for k := range abs {
@@ -398,15 +440,25 @@ func schedRun(args []string) int {
 					dist["trigger"]["cron"]++
 				case k < 7:
 					d := []int64{-2 * hour, -10 * minute, hour}[r.Intn(3)]
+					if r.Intn(4) == 0 {
+						d = schedBigIntervals[r.Intn(len(schedBigIntervals))]
+						dist["trigger"]["runonce-huge"]++
+					}
 					rt.inner = quartz.NewRunOnceTrigger(time.Duration(d))
 					spec = fmt.Sprintf("R%d", d)
 					tr = rt
+					ivl[tag] = d
 					dist["trigger"]["runonce"]++
 				case k < 9:
 					d := []int64{-2 * hour, -10 * minute, 30 * minute, hour}[r.Intn(4)]
+					if r.Intn(4) == 0 {
+						d = schedBigIntervals[r.Intn(len(schedBigIntervals))]
+						dist["trigger"]["simple-huge"]++
+					}
 					rt.inner = quartz.NewSimpleTrigger(time.Duration(d))
 					spec = fmt.Sprintf("S%d", d)
 					tr = rt
+					ivl[tag] = d
 					dist["trigger"]["simple"]++
 				default:
 					spec = "nil"
@@ -453,6 +505,7 @@ func schedRun(args []string) int {
 						flagV("C04 ScheduleJob did not compute the first fire time from the current time")
 					}
 				}
+				checkCalls(calls)
 				line = fmt.Sprintf("sched schedule %d %s %s %s %s %d %s%s", now, hexArg(g), hexArg(nm), b01(susp), b01(repl), tag, spec, flags)
 				ans = serr(err) + " calls=" + callsString(calls)
 				// documented sentinel exactly when the precondition fails
@@ -492,6 +545,7 @@ func schedRun(args []string) int {
 					got, e = h.s.GetScheduledJob(k)
 					return e
 				})
+				checkCalls(calls)
 				a, exists := abs[key]
 				want := "ok"
 				switch {
@@ -581,8 +635,49 @@ func schedRun(args []string) int {
 				if err == nil {
 					ans = "ok " + strings.Join(p, ";")
 				}
+			case "fire":
+				// the real trigger code asked directly, k times in a row, each time with its previous answer (what the
+				// scheduler does after an on-time execution), from a prev that may be close to the end of time: the
+				// additions that a step at the real clock cannot reach
+				d := []int64{hour, 30 * minute, -10 * minute, math.MaxInt64, math.MaxInt64 / 4 * 3, 1, math.MaxInt64 / 2, math.MaxInt64/2 + 1}[r.Intn(8)]
+				prev := T0 + int64(r.Intn(1000))
+				if r.Intn(3) != 0 {
+					prev = schedFirePrevs[r.Intn(len(schedFirePrevs))]
+				}
+				kind := "S"
+				var tr quartz.Trigger = quartz.NewSimpleTrigger(time.Duration(d))
+				if r.Intn(3) == 0 {
+					kind, tr = "R", quartz.NewRunOnceTrigger(time.Duration(d))
+				}
+				k := 1 + r.Intn(3)
+				line = fmt.Sprintf("sched fire %s%d %d %d", kind, d, prev, k)
+				var calls []trigCall
+				var parts []string
+				p := prev
+				for j := 0; j < k; j++ {
+					v, err := tr.NextFireTime(p)
+					if err != nil {
+						if !(kind == "R" && j > 0 && errors.Is(err, quartz.ErrTriggerExpired)) {
+							flagV(fmt.Sprintf("C04 NextFireTime(%d) of a %s trigger with interval %d failed: %v", p, kind, d, err))
+						}
+						parts = append(parts, "e")
+						break
+					}
+					if kind == "R" && j > 0 {
+						flagV("C04 a run-once trigger answered a second fire time")
+					}
+					vv := v
+					calls = append(calls, trigCall{0, p, &vv})
+					parts = append(parts, fmt.Sprint(v))
+					p = v
+				}
+				ivl[0] = d
+				checkCalls(calls)
+				delete(ivl, 0)
+				ans = "ok " + strings.Join(parts, ",")
 			case "step":
 				sr := h.step()
+				checkCalls(sr.calls)
 				now := sr.lo
 				cls := ""
 				if sr.popErr != nil {
